@@ -7,9 +7,10 @@
    all_members a: every non-directory member once, under its own name, with its own bytes.
    sel: the decision of _extract (`in targets` / `startswith`); spec_sel: named members and
    members beneath a named directory.
-   stored: which numbering the folder file lists carry: false = py7zr as it is
-   (ArchiveFileList offset+index), true = the repaired numbering (header index of each member);
-   the harness observes which one the implementation has and uses the model with that flag. *)
+   stored: which numbering the folder file lists carry: true = the header index of each member
+   (py7zr since the repair `use each member's own index as its id in multi-folder extraction`),
+   false = ArchiveFileList offset+index (py7zr before it); the harness observes which one the
+   implementation has and uses the model with that flag. *)
 From P7 Require Import Prelude Select SelectProofs.
 From Coq Require Import Permutation.
 
@@ -69,8 +70,8 @@ Theorem C09_all_members_once : forall a, Permutation (all_members a) (canon (all
 Proof. exact all_members_perm. Qed.
 Print Assumptions C09_all_members_once.
 
-(* the full statement is false for multi-folder archives in general: with an empty-stream entry
-   between two data members of a later folder the folder's file list is numbered offset+index *)
+(* with the offset+index numbering the full statement is false for multi-folder archives: an
+   empty-stream entry between two data members of one folder shifts the ids of the later members *)
 Theorem C09_extract_restrict_multifolder_refuted :
   exists a T, wf_archive a /\ prefix_free_names a /\ (forall t, In t T -> In t (names a)) /\
     ~ ids_consistent false a /\
